@@ -211,6 +211,124 @@ example :
   expand_function_macro_eq_subst Quirks.code _ (by decide) _ _ _ _ _ _ _ (by decide) (by decide) (by decide) (by decide) (by decide)
     (by decide) (by decide) (by decide) (by decide) (by decide) (by decide)
 
+/-- **nested invocations in arguments** (C17 6.10.3.1): an invocation of a function-like macro in any context `dis` (the macros
+whose replacement is being rescanned) is replaced by its replacement list with every parameter substituted by its argument, where
+each argument has been completely macro replaced ON ITS OWN in the context of the caller: `argCtx q t.s dis = dis` for the code
+and for the standard — the invocation being replaced contributes nothing, in particular not its own name, so `F ( G ( F ( x ) ) )`
+expands all three.  Hypotheses: the replacement list contains no macro name and no `#`, the macro is not variadic, the argument
+count fits, the replaced arguments are inert (their tokens name no macro or are painted). -/
+theorem expand_function_macro_nested (q : Quirks) (ms : List Macro) (t lp : XTok) (m : Macro) (ps : List Tok) (dis : List Tok)
+    (rest1 rest2 : List XTok) (args expd : List (List XTok))
+    (hbody : ∀ x ∈ m.body, lookup ms x = none ∧ (x != ['#']) = true)
+    (htn : isName t.s = true) (htb : t.blue = false) (hl : lookup ms t.s = some m) (hps : m.params = some ps)
+    (hnv : m.variadic = false) (hne : ps.length ≠ 0) (hva : ps.contains (tokS "__VA_ARGS__") = false) (hlp : lp.s = ['('])
+    (hpa : parseArgs rest1 = some (args, rest2)) (hlen : args.length = ps.length) (hdis : dis.contains t.s = false)
+    (hel : expd.length = args.length)
+    (hexp : ∀ i (h : i < args.length),
+      (if plainUse ps m.body (min i (ps.length - 1)) then expand q ms (argCtx q t.s dis) args[i] else .ok args[i]) =
+        .ok (expd[i]'(by omega)))
+    (hin : ∀ e ∈ expd, ∀ x ∈ e, Inert ms x) :
+    expand q ms dis (t :: lp :: rest1) = (expand q ms dis rest2).map (substParams ps expd m.body ++ ·) :=
+  expand_fn_nested q ms t lp m ps dis rest1 rest2 args expd hbody htn htb hl hps hnv hne hva hlp hpa hlen hdis hel hexp hin
+
+/-! #### the indirect pattern `INC ( DBL ( INC ( 3 ) ) )` -/
+
+def mINC : Macro := ⟨"INC".toList, some ["x".toList], false, ["(", "x", "+", "1", ")"].map String.toList⟩
+def mDBL : Macro := ⟨"DBL".toList, some ["y".toList], false, ["(", "y", "*", "2", ")"].map String.toList⟩
+def tk (s : String) : XTok := ⟨s.toList, false⟩
+def tb (s : String) : XTok := ⟨s.toList, true⟩
+/-- the variant in which the arguments inherit the name of the invocation they belong to -/
+def qInherit : Quirks := { Quirks.code with argInherit := true }
+
+theorem body_INC : ∀ x ∈ mINC.body, lookup [mINC, mDBL] x = none ∧ (x != ['#']) = true := by decide
+theorem body_DBL : ∀ x ∈ mDBL.body, lookup [mINC, mDBL] x = none ∧ (x != ['#']) = true := by decide
+
+/-- one step: an invocation of INC / DBL whose single argument `a` is replaced to the inert list `e` in the caller's context -/
+theorem step1 (q : Quirks) (m : Macro) (nm : String) (p : String) (dis : List Tok) (a e : List XTok) (rest2 : List XTok)
+    (hm : m = mINC ∧ nm = "INC" ∧ p = "x" ∨ m = mDBL ∧ nm = "DBL" ∧ p = "y")
+    (hpa : parseArgs (a ++ [tk ")"]) = some ([a], rest2)) (hdis : dis.contains nm.toList = false)
+    (he : expand q [mINC, mDBL] (argCtx q nm.toList dis) a = .ok e) (hin : ∀ x ∈ e, Inert [mINC, mDBL] x) :
+    expand q [mINC, mDBL] dis (tk nm :: tk "(" :: (a ++ [tk ")"])) =
+      (expand q [mINC, mDBL] dis rest2).map (substParams [p.toList] [e] m.body ++ ·) := by
+  rcases hm with ⟨rfl, rfl, rfl⟩ | ⟨rfl, rfl, rfl⟩
+  · exact expand_fn_nested q _ _ _ mINC ["x".toList] dis _ rest2 [a] [e] body_INC (by decide) rfl (by decide) rfl rfl (by decide)
+      (by decide) rfl hpa rfl hdis rfl
+      (by intro i h; have : i = 0 := by simpa using h
+          subst this; simpa [plainUse, plainUseAux, nextIsPaste, mINC, tk] using he)
+      (by intro x hx; simp at hx; subst hx; exact hin)
+  · exact expand_fn_nested q _ _ _ mDBL ["y".toList] dis _ rest2 [a] [e] body_DBL (by decide) rfl (by decide) rfl rfl (by decide)
+      (by decide) rfl hpa rfl hdis rfl
+      (by intro i h; have : i = 0 := by simpa using h
+          subst this; simpa [plainUse, plainUseAux, nextIsPaste, mDBL, tk] using he)
+      (by intro x hx; simp at hx; subst hx; exact hin)
+
+/-- the code (and the standard): all three invocations are replaced -/
+theorem expand_indirect_nesting :
+    expand Quirks.code [mINC, mDBL] [] ([tk "INC", tk "(", tk "DBL", tk "(", tk "INC", tk "(", tk "3", tk ")", tk ")", tk ")"]) =
+      .ok (["(", "(", "(", "3", "+", "1", ")", "*", "2", ")", "+", "1", ")"].map tk) := by
+  have inert : ∀ (l : List String), (∀ s ∈ l, lookup [mINC, mDBL] s.toList = none) → ∀ x ∈ l.map tk, Inert [mINC, mDBL] x := by
+    intro l h x hx; simp only [List.mem_map] at hx; obtain ⟨s, hs, rfl⟩ := hx; exact Or.inl (h s hs)
+  have s0 : expand Quirks.code [mINC, mDBL] [] [tk "3"] = .ok [tk "3"] := expand_inert _ _ _ _ (inert ["3"] (by decide))
+  have s1 := step1 Quirks.code mINC "INC" "x" [] [tk "3"] [tk "3"] [] (Or.inl ⟨rfl, rfl, rfl⟩) (by decide) (by decide) s0
+    (inert ["3"] (by decide))
+  have e1 : expand Quirks.code [mINC, mDBL] [] [] = .ok [] := by rw [expand]
+  rw [e1] at s1
+  have s2 := step1 Quirks.code mDBL "DBL" "y" [] [tk "INC", tk "(", tk "3", tk ")"] (["(", "3", "+", "1", ")"].map tk) []
+    (Or.inr ⟨rfl, rfl, rfl⟩) (by decide) (by decide) (by simpa [argCtx, Quirks.code, substParams, argOf, indexOf, isName, mINC, tokOf, tk, Except.map] using s1)
+    (inert _ (by decide))
+  rw [e1] at s2
+  have s3 := step1 Quirks.code mINC "INC" "x" [] [tk "DBL", tk "(", tk "INC", tk "(", tk "3", tk ")", tk ")"]
+    (["(", "(", "3", "+", "1", ")", "*", "2", ")"].map tk) [] (Or.inl ⟨rfl, rfl, rfl⟩) (by decide) (by decide)
+    (by simpa [argCtx, Quirks.code, substParams, argOf, indexOf, isName, mDBL, tokOf, tk, Except.map] using s2) (inert _ (by decide))
+  rw [e1] at s3
+  simpa [substParams, argOf, indexOf, isName, mINC, tokOf, tk, Except.map] using s3
+
+/-- the inherited-set variant: the innermost `INC` is painted and stays a literal call -/
+theorem expand_indirect_nesting_inherit :
+    expand qInherit [mINC, mDBL] [] ([tk "INC", tk "(", tk "DBL", tk "(", tk "INC", tk "(", tk "3", tk ")", tk ")", tk ")"]) =
+      .ok [tk "(", tk "(", tb "INC", tk "(", tk "3", tk ")", tk "*", tk "2", tk ")", tk "+", tk "1", tk ")"] := by
+  have e1 : ∀ dis, expand qInherit [mINC, mDBL] dis [] = .ok [] := by intro dis; rw [expand]
+  -- innermost: INC is disabled in the inherited context [DBL, INC]
+  have s1 : expand qInherit [mINC, mDBL] ["DBL".toList, "INC".toList] [tk "INC", tk "(", tk "3", tk ")"] =
+      .ok [tb "INC", tk "(", tk "3", tk ")"] := by
+    rw [expand_blue qInherit _ _ (tk "INC") _ mINC (by decide) rfl (by decide) (by decide)]
+    rw [expand_inert qInherit _ [tk "(", tk "3", tk ")"] _ (by
+      intro x hx; simp at hx; rcases hx with rfl | rfl | rfl <;> exact Or.inl (by decide))]
+    rfl
+  have in1 : ∀ x ∈ [tb "INC", tk "(", tk "3", tk ")"], Inert [mINC, mDBL] x := by
+    intro x hx; simp at hx
+    rcases hx with rfl | rfl | rfl | rfl
+    · exact Or.inr rfl
+    · exact Or.inl (by decide)
+    · exact Or.inl (by decide)
+    · exact Or.inl (by decide)
+  have s2 := step1 qInherit mDBL "DBL" "y" ["INC".toList] [tk "INC", tk "(", tk "3", tk ")"] [tb "INC", tk "(", tk "3", tk ")"] []
+    (Or.inr ⟨rfl, rfl, rfl⟩) (by decide) (by decide) (by simpa [argCtx, qInherit] using s1) in1
+  rw [e1] at s2
+  have in2 : ∀ x ∈ [tk "(", tb "INC", tk "(", tk "3", tk ")", tk "*", tk "2", tk ")"], Inert [mINC, mDBL] x := by
+    intro x hx; simp at hx
+    rcases hx with rfl | rfl | rfl | rfl | rfl | rfl | rfl | rfl
+    all_goals first
+      | exact Or.inr rfl
+      | exact Or.inl (by decide)
+  have s3 := step1 qInherit mINC "INC" "x" [] [tk "DBL", tk "(", tk "INC", tk "(", tk "3", tk ")", tk ")"]
+    [tk "(", tb "INC", tk "(", tk "3", tk ")", tk "*", tk "2", tk ")"] [] (Or.inl ⟨rfl, rfl, rfl⟩) (by decide) (by decide)
+    (by simpa [argCtx, qInherit, substParams, argOf, indexOf, isName, mDBL, tokOf, tk, tb, Except.map] using s2) in2
+  rw [e1] at s3
+  simpa [substParams, argOf, indexOf, isName, mINC, tokOf, tk, tb, Except.map] using s3
+
+/-- **counterexample for the inherited-set variant**: if the arguments of an invocation inherited the invocation's own name as
+"already expanding", `INC ( DBL ( INC ( 3 ) ) )` would keep a literal `INC ( 3 )` — the token sequence differs from that of the
+code / of C17 6.10.3.1 (`argCtx` adds nothing).  This is exactly the seeded change
+`C06-macro-arg-preexpansion-inherits-expanding-set`. -/
+theorem expand_arg_inherit_counterexample :
+    (expand qInherit [mINC, mDBL] [] ([tk "INC", tk "(", tk "DBL", tk "(", tk "INC", tk "(", tk "3", tk ")", tk ")", tk ")"])).toOption.map
+        (List.map (·.s)) ≠
+    (expand Quirks.code [mINC, mDBL] [] ([tk "INC", tk "(", tk "DBL", tk "(", tk "INC", tk "(", tk "3", tk ")", tk ")", tk ")"])).toOption.map
+        (List.map (·.s)) := by
+  rw [expand_indirect_nesting_inherit, expand_indirect_nesting]
+  decide
+
 /-! ### -D / -U -/
 
 /-- **-D is applied**: every piece of `Settings::userDefines` (`-D`) whose name is not undefined by `-U` is a defined macro
